@@ -24,12 +24,14 @@ def run(chk):
     x8(chk, prog, depths[0])
     from .. import numrules
     numrules.rule_strict_numbers(chk, prog, "C16.X6")
+    numrules.rule_literals(chk, prog, None, "C16.X4.strict", "C16.X4.default")
     chk.undecided_clauses += [
         "number tokens are decided by X6 with strtod / strtoll / strtoull taken at their ISO C contracts and digit runs collapsed "
         "(integer part: 0, 00, 05, 5, 55; other runs: 5); whether an in-range integer is converted exactly is libc's",
         "that default mode yields the original document's *value* for the value-neutral forms (only acceptance and return to "
         "the same parser configuration are decided)",
-        "literal tokens (null / true / false / NaN / Infinity) are opaque (their text decides acceptance)",
+        "the Infinity literal (its own state, no token buffer) is covered by the reachability rule X4 only; strict mode accepts the "
+        "case-exact NaN and Infinity, which the property does not list among the forms strict mode must reject",
     ]
     chk.assumptions.append("feeding one byte per call is observationally the same as any other chunking (property C03)")
 
